@@ -41,8 +41,21 @@ PROPS = {
     "C26": dict(
         _COMMON,
         proof_targets=["Props/C26.vo"],
+        gen=["GenIterInj"],
         theorems=[("C26", "C26_visits_exact"), ("C26", "C26_as_module_iterators"), ("C26", "C26_single_module"),
-                  ("C26", "C26_checker_sound")],
+                  ("C26", "C26_injection_method_tables_agree"), ("C26", "C26_injections_as_module_iterators"),
+                  ("C26", "C26_untouched_module_unchanged"), ("C26", "C26_checker_sound")],
+        technique="Coq proof (induction over modules / functions / instructions) over a hand-written model of the traversal + "
+                  "Coq proof, for every interpretation of the injection-side trait methods, over the two method tables a syn-based "
+                  "translator regenerates from component_iterator.rs / module_iterator.rs on every check + in-Coq differential "
+                  "correspondence against the real iterators driven through the public Iterator trait under catch_unwind",
+        trusted_base=ITER_TB + ["translator/src/iterinj.rs (GenIterInj): reads every `impl <Trait> for ComponentIterator / ModuleIterator` "
+                                "(Inject, InjectAt, Instrumenter, IteratingInstrumenter, AddLocal; Opcode / MacroOpcode must be empty impls; any other "
+                                "trait or any method body outside the understood shapes is a 'shape changed' exit) and normalises each method to "
+                                "(trait, method, location source, how the function is reached + arguments + location fields, statements); trusted: that "
+                                "two methods with equal normalised entries do the same thing to the module they reach (same Rust statements over "
+                                "the same bindings `l`, MODULE, func_idx, instr_idx and the same arguments), and that the shared default methods "
+                                "(iterator_trait.rs, opcode.rs) reach the module only through these methods"],
         quick=dict(n=1600), thorough=dict(n=32000),
         rule="wasm-encoder components with 1-4 core modules generated as for C25 (optionally custom sections in between), a skip map "
              "(modules present with a list, present with an empty list, or absent), the same script against ComponentIterator; "
@@ -52,12 +65,20 @@ PROPS = {
         level_text="Proof (Coq, every component, skip map and script, no size bound) that the model of "
                    "ComponentIterator yields exactly the concatenation over the modules of the module-level visit lists and equals the "
                    "concatenation of the ModuleIterator model runs; correspondence of the "
-                   "model with /repo's working tree by differential evaluation inside Coq. The injection half (same encoded modules) is "
-                   "tested, not proved: the harness compares the encodings and Coq requires the comparison to succeed on every case.",
+                   "model with /repo's working tree by differential evaluation inside Coq. Injection half: Coq proof that, for EVERY "
+                   "interpretation of a trait-method table as the effect of the public injection calls on the module the iterator stands in, "
+                   "every component, skip map, plan of calls per visited location and initial modules, the ComponentIterator run leaves exactly "
+                   "the modules (hence the encoded modules) that one ModuleIterator per module leaves, given equal method tables; and a vm_compute "
+                   "theorem that the two tables regenerated from /repo/src/iterator/{component,module}_iterator.rs on every check (16 "
+                   "injection-side methods each, normalised) are equal. What the shared callee (LocalFunction::add_instr, ...) and Module::encode "
+                   "do is not part of this theorem (C15-C22); the real encodings of both routes are additionally compared byte for byte on every "
+                   "sampled case and Coq requires the comparison to succeed.",
         level_note="Trusted: Coq kernel + vm_compute; the harness (generator, driver loop, byte comparison of the two encodings, case "
                    "printer); that the sampled correspondence extends to unsampled inputs. Modelled, not verified: "
                    "src/subiterator/component_subiterator.rs, src/iterator/component_iterator.rs (new/next/curr_loc/curr_op/reset). "
-                   "Not modelled: the injection path (LocalFunction::add_instr) and Component::encode -- compared on the real code only.",
+                   "Injection methods: regenerated by the translator, not hand-written. Not modelled: what the shared callees "
+                   "(LocalFunction::add_instr, clear_instr_at, ...) and Component::encode do -- the theorem is parametric in them, and the two "
+                   "routes are compared on the real code.",
         design_ref="5/C26",
         modelled="ComponentSubIterator (new, enter_module, skip_empty_modules, next, next_module, reset, curr_loc, end), ComponentIterator::{new,next,curr_loc,curr_op,reset}",
         assumptions=["'as a module iterator visits each module' is read against the specified module-level behaviour (C25's specification), "
